@@ -315,5 +315,12 @@ def templates(draw, depth=2):
         elif kind == "nest" and depth > 0:
             out[key] = draw(templates(depth - 1))
         else:
-            out[key] = [draw(st.sampled_from([1, "lit", "$.s", None])), draw(templates(0)) if depth > 0 else 0]
+            inner = draw(templates(0)) if depth > 0 else {"z.$": "$.n"}
+            shape = draw(st.sampled_from(["flat", "nested", "deep"]))
+            if shape == "flat":
+                out[key] = [draw(st.sampled_from([1, "lit", "$.s", None])), inner]
+            elif shape == "nested":
+                out[key] = [[inner, 2], [draw(st.sampled_from([1, "lit", None]))]]
+            else:
+                out[key] = [[[{"w.$": "$.s"}], inner]]
     return out
